@@ -14,6 +14,7 @@ import (
 	"gverif/engine/constx"
 	"gverif/engine/decode"
 	"gverif/engine/dspx"
+	"gverif/engine/errx"
 	"gverif/engine/factkind"
 	"gverif/engine/factx"
 	"gverif/engine/flagx"
@@ -31,6 +32,7 @@ import (
 	"gverif/engine/paramuse"
 	"gverif/engine/pool"
 	"gverif/engine/rawx"
+	"gverif/engine/settingsx"
 	"gverif/engine/sibx"
 	"gverif/engine/stride"
 	"gverif/engine/swapx"
@@ -473,6 +475,9 @@ func init() {
 			fx.Floor("loops_between_the_two_dimensions", 2)
 			fx.Floor("field_resizes", 6)
 			res.Merge(fx)
+			ex := errx.Run(def, core.Pkgs("./mat"))
+			ex.Floor("error_definitions", 8)
+			res.Merge(ex)
 			us := flagx.RunUnset(def, core.Pkgs("./mat"))
 			us.Floor("flag_variable_uses", 6)
 			res.Merge(us)
@@ -543,6 +548,9 @@ func init() {
 			g.Floor("serial_concurrent_sibling_pairs", 4)
 			res.Merge(g)
 			res.Merge(rawx.Run(def, core.Pkgs(concurrentPkgs...)))
+			la := goproto.RunLatch(def, core.Pkgs(concurrentPkgs...))
+			la.Floor("close_once_latches", 1)
+			res.Merge(la)
 			lk := goproto.RunLocks(def, core.Pkgs(concurrentPkgs...))
 			lk.Floor("lock_statements", 3)
 			lk.Floor("once_do_sites", 1)
@@ -573,6 +581,15 @@ func init() {
 			g := goproto.Run(def, core.Pkgs("./optimize"))
 			g.Floor("go_statements", 3)
 			res.Merge(g)
+			la := goproto.RunLatch(def, core.Pkgs("./optimize/..."))
+			la.Floor("close_once_latches", 1)
+			res.Merge(la)
+			ex := errx.Run(def, core.Pkgs("./optimize/..."))
+			ex.Floor("error_definitions", 20)
+			res.Merge(ex)
+			sx := settingsx.Run(def, core.Pkgs("./optimize/..."))
+			sx.Floor("settings_pointer_parameters", 2)
+			res.Merge(sx)
 			mp := initx.RunMaskPair(def, core.Pkgs("./optimize/..."))
 			mp.Floor("mask_test_and_set_arms", 4)
 			res.Merge(mp)
@@ -666,6 +683,9 @@ func init() {
 			fs.Floor("codec_method_pairs", 20)
 			fs.Floor("codec_fields", 35)
 			res.Merge(fs)
+			ex := errx.Run(def, core.Pkgs("./graph/formats/...", "./graph/encoding/...", "./stat/card", "./mathext/prng"))
+			ex.Floor("error_definitions", 60)
+			res.Merge(ex)
 			rv := decode.RunRevive(def, core.Pkgs("./graph/formats/...", "./graph/encoding/...", "./stat/card", "./mathext/prng"))
 			rv.Floor("fields_retired_with_nil", 1)
 			res.Merge(rv)
@@ -735,6 +755,11 @@ func init() {
 			c.Floor("hermite_rows", 200)
 			res.Merge(c)
 			res.Merge(rawx.Run(def, core.Pkgs("./diff/fd", "./integrate/...", "./interp", "./num/...")))
+			ex := errx.Run(def, core.Pkgs("./interp", "./integrate/...", "./diff/fd", "./num/..."))
+			res.Merge(ex)
+			st := settingsx.Run(def, core.Pkgs("./diff/fd"))
+			st.Floor("settings_pointer_parameters", 4)
+			res.Merge(st)
 			g := goproto.Run(def, core.Pkgs("./diff/fd", "./integrate/quad"))
 			g.Floor("serial_concurrent_sibling_pairs", 4)
 			res.Merge(g)
@@ -803,6 +828,12 @@ func dump(argv []string) {
 		res = flagx.RunAlphaZero(def, core.Pkgs(argv[1:]...))
 	case "workinit":
 		res = flagx.RunWorkInit(def, core.Pkgs(argv[1:]...))
+	case "settings":
+		res = settingsx.Run(def, core.Pkgs(argv[1:]...))
+	case "errx":
+		res = errx.Run(def, core.Pkgs(argv[1:]...))
+	case "latch":
+		res = goproto.RunLatch(def, core.Pkgs(argv[1:]...))
 	case "betascale":
 		res = flagx.RunBetaScale(def, core.Pkgs(argv[1:]...))
 	case "guardop":
